@@ -71,3 +71,9 @@ Proof.
     + rewrite (map2_fst_only (fun x => x)) by now rewrite rev_length. now rewrite map_id.
     + rewrite (map2_fst_only (fun x => (x + Z.abs step - 1) / Z.abs step)) by now rewrite rev_length. reflexivity.
 Qed.
+
+(* RunLengthArray._start_to_end, vector branch (after the repairs F34 / F39): the run lookup cut to nothing for an empty window and the last
+   boundary of every row, as in Model/RLEOps.v start_to_end_v (whose row-by-row agreement with the whole vector code is start_to_end_vec_is_rows) *)
+Lemma tie_rle_window (ev : list Z) s e :
+  gen_rle_window (ssr ev s) (ssl ev e) s e = (ssr ev s - 1, (if e <=? s then ssr ev s - 1 else ssl ev e), Z.max (e - s) 0).
+Proof. unfold gen_rle_window. cbv zeta. brk; same. Qed.
